@@ -129,6 +129,25 @@ def gen(rng, idx, tier):
             elif created and o["op"] == "feed" and rng.random() < 0.3:
                 o["d"] = nd - 1
     body = body[:60]
+    if rng.random() < 0.25:
+        # the wall clock moves on (minutes) between operations: instances created later must behave like instances
+        # created in a process of their own at that time
+        t = 0.0
+        for _ in range(rng.randrange(1, 4)):
+            t += rng.choice([30.0, 200.0, 601.0, 1300.0])
+            body.insert(rng.randrange(len(body) + 1), {"op": "clock", "t": t})
+        ts = sorted((i, o["t"]) for i, o in enumerate(body) if o["op"] == "clock")
+        for k, (i, _) in enumerate(ts):
+            body[i]["t"] = sorted(x[1] for x in ts)[k]
+    if rng.random() < 0.05:
+        # a long history of fast-packet messages that never finish, from many different sources
+        dj = rng.randrange(nd)
+        many = []
+        for k in range(rng.choice([70, 90])):
+            src = free_src[k % len(free_src)]
+            fr = n2k.fast_frames(traffic.rbytes(rng, 20), rng.randrange(8), 0xFF)[0]
+            many.append({"op": "feed", "d": dj, "f": [rng.choice([129029, 126996, 129540]), src, 255, 3, fr.hex()]})
+        body = many + body
     ops += body
     # probes on every decoder
     used = {o["f"][1] for o in ops if o["op"] == "feed" and "f" in o}
@@ -207,7 +226,8 @@ def _run_ops(ops, only_dec=None, skip_junk=False):
     from nmea2000.decoder import NMEA2000Decoder
     from nmea2000.encoder import NMEA2000Encoder
     from nmea2000.message import NMEA2000Message, NMEA2000Field
-    bus.with_clock(None)
+    vc = bus.VClock(0.0)
+    bus.with_clock(vc)
     shared = copy.deepcopy(SHARED)
     before = copy.deepcopy(shared)
     decs, fm, encs = {}, {}, {}
@@ -215,6 +235,10 @@ def _run_ops(ops, only_dec=None, skip_junk=False):
     out = []
     for o in ops:
         r = None
+        if o["op"] == "clock":
+            vc.t = o["t"]              # the wall clock is global: it advances in every replay alike
+            out.append(None)
+            continue
         if only_dec is not None and o.get("d") != only_dec:
             out.append(None)
             continue
@@ -386,9 +410,16 @@ def execute(plan):
                 continue
             # address claims are the one part of the history that legitimately shapes later results (identity and
             # admission, C11), so the fresh decoder is given this decoder's claims before the probes
-            claims = [o for o in ops if o["op"] == "feed" and o["d"] == d and o["f"][0] == 60928 and not o.get("junk")]
-            mini = [cr] + claims + [ops[i] for i in idxs]
-            fresh = _in_child(_run_ops, mini)["results"][1 + len(claims):]
+            # ... and the wall clock moves exactly as in the history (kept in the original order)
+            keep = []
+            pos = {}
+            for i, o in enumerate(ops):
+                if o is cr or o["op"] == "clock" or i in idxs or \
+                        (o["op"] == "feed" and o["d"] == d and o["f"][0] == 60928 and not o.get("junk")):
+                    pos[i] = len(keep)
+                    keep.append(o)
+            fr_all = _in_child(_run_ops, keep)["results"]
+            fresh = [fr_all[pos[i]] for i in idxs]
             for k, i in enumerate(idxs):
                 if fresh[k] != res[i]:
                     v.append(viol("C16.I3", i, "decoder %d: %s probe (%s) decodes to %s after the history but to %s on a fresh decoder" %
@@ -408,6 +439,8 @@ def execute(plan):
 
 
 def _op(o):
+    if o["op"] == "clock":
+        return "wall clock -> %.0f s" % o["t"]
     if o["op"] == "probe_fast":
         return "fast-packet probe %s x%d frames" % (o["frames"][0][:3], len(o["frames"]))
     if o["op"] == "feed":
